@@ -691,7 +691,13 @@ func (p *Program) buildQueryOpt(o *Obligation, unfoldDepth int, filter bool) str
 				}
 			})
 		}
-		sort.Slice(hv, func(i, j int) bool { return hv[i].id < hv[j].id })
+		sort.SliceStable(hv, func(i, j int) bool {
+			a, b := canonName(hv[i].Name), canonName(hv[j].Name)
+			if a != b {
+				return a < b
+			}
+			return hv[i].id < hv[j].id
+		})
 		for _, v := range hv {
 			info := p.heapVars[v]
 			if inv := p.heapInv(info.name, v, info.alloc); inv != True {
